@@ -157,8 +157,7 @@ func runC16(r *mc.Run) {
 	w.Spec.NulAfter = true
 	w.Parts = w.Spec.Parts()
 	raw0 := w.Raw()
-	parsed, err := safeToProto(raw0)
-	if err != nil {
+	if _, err := safeToProto(raw0); err != nil {
 		r.HarnessError("C16: honest quote does not parse: %v", err)
 		return
 	}
@@ -167,62 +166,114 @@ func runC16(r *mc.Run) {
 		name  string
 		build func() *pb.QuoteV4
 	}
-	modes := []mode{
-		{"parsed", func() *pb.QuoteV4 { q, _ := safeToProto(raw0); return q }},
-		{"rebuilt/spare=0", func() *pb.QuoteV4 { return c16Rebuild(parsed, 0) }},
-		{"rebuilt/spare=1", func() *pb.QuoteV4 { return c16Rebuild(parsed, 1) }},
-		{"rebuilt/spare=4096", func() *pb.QuoteV4 { return c16Rebuild(parsed, 4096) }},
-		{"proto-wire", func() *pb.QuoteV4 {
-			b, _ := proto.Marshal(parsed)
-			q := &pb.QuoteV4{}
-			proto.Unmarshal(b, q)
-			return q
-		}},
-		{"proto-text", func() *pb.QuoteV4 {
-			b, _ := prototext.Marshal(parsed)
-			q := &pb.QuoteV4{}
-			prototext.Unmarshal(b, q)
-			return q
-		}},
+	// quote shapes: the unsigned regions (certificate chain, QE authentication data, trailing bytes) in the
+	// unusual forms a parser might be tempted to normalise in place
+	type shape struct {
+		name string
+		raw  []byte
 	}
-	// (i) write monitor
-	for _, m := range modes {
-		for _, op := range ops {
-			id := "write/" + m.name + "/" + op.name
-			if !r.Want(id) {
-				continue
-			}
-			q := m.build()
-			raw := append(make([]byte, 0, len(raw0)+512), raw0...)
-			vo := c16ValidateOpts(raw0)
-			ar, aerr := memwatch.New(1 << 21)
-			if aerr != nil {
-				r.HarnessError("C16: cannot map the arena: %v", aerr)
-				return
-			}
-			n, rerr := ar.Rehome(q, &raw, vo)
-			if rerr != nil {
-				r.HarnessError("C16: %v", rerr)
+	shapes := []shape{{"base", raw0}}
+	{
+		chainShape := func(name string, f func(c []byte) []byte) {
+			p := w.Parts.Clone()
+			p.Chain = f(append([]byte(nil), p.Chain...))
+			b, _ := p.Bytes()
+			shapes = append(shapes, shape{name, b})
+		}
+		noNul := func(c []byte) []byte { return bytes.TrimRight(c, "\x00") }
+		chainShape("chain/interior-nul", func(c []byte) []byte {
+			return append(bytes.ReplaceAll(noNul(c), []byte("\n-----BEGIN"), []byte("\n\x00-----BEGIN")), 0)
+		})
+		chainShape("chain/leading-nul", func(c []byte) []byte { return append([]byte{0}, c...) })
+		chainShape("chain/three-trailing-nul", func(c []byte) []byte { return append(noNul(c), 0, 0, 0) })
+		chainShape("chain/crlf", func(c []byte) []byte { return bytes.ReplaceAll(c, []byte("\n"), []byte("\r\n")) })
+		chainShape("chain/text-between-blocks", func(c []byte) []byte {
+			return bytes.ReplaceAll(c, []byte("\n-----BEGIN"), []byte("\nissuer follows\n-----BEGIN"))
+		})
+		chainShape("chain/other-block-appended", func(c []byte) []byte {
+			return append(noNul(c), world.PEMBlock("PUBLIC KEY", []byte{1, 2, 3})...)
+		})
+		chainShape("chain/whitespace-tail", func(c []byte) []byte { return append(noNul(c), []byte(" \n\t \n")...) })
+		chainShape("chain/nul-inside-base64", func(c []byte) []byte {
+			c = append([]byte(nil), c...)
+			c[len(c)/2] = 0
+			return c
+		})
+		chainShape("chain/empty", func(c []byte) []byte { return nil })
+		for _, al := range []int{0, 1000} {
+			w2 := world.Honest("T")
+			w2.Spec.Auth = world.Fill("c16-auth", al)
+			w2.Parts = w2.Spec.Parts()
+			shapes = append(shapes, shape{fmt.Sprintf("auth/len%d+no-extra", al), w2.Raw()})
+		}
+	}
+	for _, sh := range shapes {
+		raw0 := sh.raw
+		parsed, err := safeToProto(raw0)
+		if err != nil {
+			r.HarnessError("C16: quote shape %s does not parse: %v", sh.name, err)
+			return
+		}
+		modes := []mode{
+			{"parsed", func() *pb.QuoteV4 { q, _ := safeToProto(raw0); return q }},
+			{"rebuilt/spare=0", func() *pb.QuoteV4 { return c16Rebuild(parsed, 0) }},
+			{"rebuilt/spare=1", func() *pb.QuoteV4 { return c16Rebuild(parsed, 1) }},
+			{"rebuilt/spare=4096", func() *pb.QuoteV4 { return c16Rebuild(parsed, 4096) }},
+			{"proto-wire", func() *pb.QuoteV4 {
+				b, _ := proto.Marshal(parsed)
+				q := &pb.QuoteV4{}
+				proto.Unmarshal(b, q)
+				return q
+			}},
+			{"proto-text", func() *pb.QuoteV4 {
+				b, _ := prototext.Marshal(parsed)
+				q := &pb.QuoteV4{}
+				prototext.Unmarshal(b, q)
+				return q
+			}},
+		}
+		// (i) write monitor
+		for _, m := range modes {
+			for _, op := range ops {
+				id := "write/" + m.name + "/" + op.name
+				if sh.name != "base" {
+					id = "write/" + sh.name + "/" + m.name + "/" + op.name
+				}
+				if !r.Want(id) {
+					continue
+				}
+				q := m.build()
+				raw := append(make([]byte, 0, len(raw0)+512), raw0...)
+				vo := c16ValidateOpts(raw0)
+				ar, aerr := memwatch.New(1 << 21)
+				if aerr != nil {
+					r.HarnessError("C16: cannot map the arena: %v", aerr)
+					return
+				}
+				n, rerr := ar.Rehome(q, &raw, vo)
+				if rerr != nil {
+					r.HarnessError("C16: %v", rerr)
+					ar.Free()
+					return
+				}
+				before := ar.Snapshot()
+				var out string
+				fault, other := ar.Guard(func() { out = op.run(q, raw, vo, w) })
+				switch {
+				case fault != nil:
+					site := faultSite(fault.Stack)
+					r.Violate("write:"+op.name+":"+site, id, fmt.Sprintf("%s writes to memory reachable from the quote / raw input / options (%d protected slices, construction %s): store at arena offset faulted in %s", op.name, n, m.name, site),
+						map[string]any{"stack": trimStack(fault.Stack)})
+					out = "WRITE@" + site
+				case other != nil:
+					out = "panic"
+				case !bytes.Equal(before, ar.Snapshot()):
+					r.Violate("write:snapshot:"+op.name, id, op.name+" changed bytes of the protected arena without faulting", nil)
+					out = "changed"
+				}
 				ar.Free()
-				return
+				r.Eval(id, true, "write:"+firstWord(out))
 			}
-			before := ar.Snapshot()
-			var out string
-			fault, other := ar.Guard(func() { out = op.run(q, raw, vo, w) })
-			switch {
-			case fault != nil:
-				site := faultSite(fault.Stack)
-				r.Violate("write:"+op.name+":"+site, id, fmt.Sprintf("%s writes to memory reachable from the quote / raw input / options (%d protected slices, construction %s): store at arena offset faulted in %s", op.name, n, m.name, site),
-					map[string]any{"stack": trimStack(fault.Stack)})
-				out = "WRITE@" + site
-			case other != nil:
-				out = "panic"
-			case !bytes.Equal(before, ar.Snapshot()):
-				r.Violate("write:snapshot:"+op.name, id, op.name+" changed bytes of the protected arena without faulting", nil)
-				out = "changed"
-			}
-			ar.Free()
-			r.Eval(id, true, "write:"+firstWord(out))
 		}
 	}
 	// aliasing: a parsed quote shares no memory with its input
